@@ -237,7 +237,8 @@ Message *Message::factory(const F8MetaCntx& ctx, const f8String& from, bool no_c
 
 	const unsigned mlen(fast_atoi<unsigned>(len));
 	const BaseMsgEntry *bme(ctx._bme.find_ptr(mtype));
-	if (!bme)
+	// the message table also holds the header and trailer components; they are not messages
+	if (!bme || bme == ctx._bme.find_ptr("header") || bme == ctx._bme.find_ptr("trailer"))
 		throw InvalidMessage(mtype, FILE_LINE);
 	Message *msg(bme->_create._do(false)); // shallow create
 #if defined FIX8_CODECTIMING
